@@ -124,6 +124,23 @@ def check_string(env, s, rec, deep, with_sql):
     if copy.copy(u) != u or URI(u) != u:
         rec.violation("copy-unequal", "copy of URI(%r) unequal" % s, ("s", s))
         return u
+    # a uri whose fields are assigned (what the daemon's NAT rewriting and user code do) prints its NEW fields, also when it has been printed before
+    for fld, val in (("object", {"tag.one", "t2"} if u.protocol == "PYROMETA" else "renamed.obj"), ("port", 4711), ("host", "other.host.example")):
+        if fld != "object" and (u.protocol not in ("PYRO", "PYRONAME", "PYROMETA") or u.host is None or u.sockname):
+            continue
+        m = copy.copy(u)
+        str(m), repr(m)
+        setattr(m, fld, val)
+        try:
+            m2 = URI(str(m))
+            ok = fields(m2) == fields(m) and m2 == m
+        except Exception as x:
+            m2, ok = x, False
+        if not ok:
+            rec.violation("text-form-ignores-assigned-field", "URI(%r) with .%s = %r assigned has fields %r but its text form %r parses as %r" % (
+                s, fld, val, fields(m), str(m), fields(m2) if not isinstance(m2, Exception) else m2), ("s", s))
+            return u
+        rec.count("assigned_field_text_checked")
     if not deep:
         return u
     # serializers
